@@ -94,7 +94,13 @@ pub fn gen_plan(seed: u64, metas: &[Meta], corpus_len: usize) -> Plan {
                 5 if have_gen => Op::Drain { g: 0, max: 4000 },
                 6 => {
                     have_private = true;
-                    Op::CloneEngine { src: s, dst: nshared }
+                    if r.chance(0.3) {
+                        // a private engine built from the same voice files while other threads synthesize
+                        // (loader and synthesis side by side: interned strings, global tables)
+                        Op::Load { e: nshared, voices: shared[s].0.clone(), via_files: !heavy }
+                    } else {
+                        Op::CloneEngine { src: s, dst: nshared }
+                    }
                 }
                 7 if have_private => Op::Set { e: nshared, s: envelope_setter(&mut r, 3, !heavy) },
                 8 if have_private => Op::Synth { e: nshared, utt, form: Form::Slice },
@@ -380,9 +386,13 @@ pub fn run_plan(plan: &Plan, env: &mut Env, corpus: &Arc<Vec<String>>, forced: O
         let shared = shared.clone();
         let corpus = corpus.clone();
         let tag = format!("{}-t{}", tag, id);
+        let main_dir = env.dir.clone();
         let h = std::thread::Builder::new().stack_size(32 << 20).spawn(move || -> ThreadOut {
             let mut env = match Env::lite(&tag, &corpus) {
-                Ok(e) => e,
+                Ok(mut e) => {
+                    e.shared_dir = Some(main_dir);
+                    e
+                }
                 Err(e) => {
                     sched.enter(id);
                     sched.leave(id);
